@@ -75,11 +75,54 @@ pub fn substate(state: &[bool], vars: &[usize]) -> Vec<bool> {
 const WEIGHTS: [f64; 12] = [0.0, 0.0, 0.125, 0.25, 0.5, 0.75, 1.0, 1.5, 2.0, 3.0, 4.0, 6.0];
 const BETAS: [f64; 7] = [0.125, 0.25, 0.5, 1.0, 1.0, 2.0, 4.0];
 
+/// number of variables of a random bond: 1..=min(nvars, 4), 3- and 4-variable bonds in ~3/8 of the draws
+pub fn gen_arity(g: &mut SplitMix64, nvars: usize) -> usize {
+    let r = g.below(8);
+    if nvars >= 4 && r == 0 {
+        4
+    } else if nvars >= 3 && r <= 2 {
+        3
+    } else if nvars >= 2 && r <= 5 {
+        2
+    } else {
+        1
+    }
+}
+
+/// Diagonal weights (index = sub-state, first variable most significant) of a bond on k >= 3 variables.
+/// In 3/4 of the draws the maximum is unique and sits at a uniformly chosen sub-state index (so that every
+/// index, in particular the last ones of any enumeration order, carries the maximum regularly).
+pub fn gen_multi_diag(g: &mut SplitMix64, k: usize) -> Vec<f64> {
+    let dim = 1usize << k;
+    if g.chance(1, 4) {
+        return (0..dim).map(|_| *g.pick(&WEIGHTS)).collect();
+    }
+    let top = *g.pick(&[0.75, 1.5, 2.0, 3.0, 4.0, 6.0]);
+    let m = g.below(dim as u64) as usize;
+    let lower: Vec<f64> = WEIGHTS.iter().cloned().filter(|w| *w < top).collect();
+    let d: Vec<f64> = (0..dim).map(|s| if s == m { top } else { *g.pick(&lower) }).collect();
+    stat(&format!("multivar_bond_k{}_argmax_{}", k, m), 1);
+    d
+}
+
+/// index of the unique largest diagonal entry of a bond, if unique
+pub fn unique_argmax(tb: &TableBond) -> Option<usize> {
+    let dim = 1usize << tb.vars.len();
+    let d: Vec<f64> = (0..dim).map(|s| tb.mat[s * dim + s]).collect();
+    let mx = d.iter().cloned().fold(f64::MIN, f64::max);
+    let idx: Vec<usize> = (0..dim).filter(|s| d[*s] == mx).collect();
+    if idx.len() == 1 {
+        Some(idx[0])
+    } else {
+        None
+    }
+}
+
 pub fn gen_bonds(g: &mut SplitMix64, nvars: usize) -> Vec<TableBond> {
     let nb = g.range(1, 5) as usize;
     (0..nb)
         .map(|_| {
-            let k = if nvars >= 2 && g.coin() { 2 } else { 1 };
+            let k = gen_arity(g, nvars);
             let mut vars: Vec<usize> = vec![];
             while vars.len() < k {
                 let v = g.below(nvars as u64) as usize;
@@ -92,6 +135,14 @@ pub fn gen_bonds(g: &mut SplitMix64, nvars: usize) -> Vec<TableBond> {
             let flat = g.chance(1, 6);
             let flat_w = *g.pick(&WEIGHTS[2..]);
             let mut mat = vec![0.0; dim * dim];
+            if k >= 3 {
+                // diagonal many-body term (the off-diagonal entries play no role in the diagonal update)
+                let d = gen_multi_diag(g, k);
+                for s in 0..dim {
+                    mat[s * dim + s] = d[s];
+                }
+                return TableBond { vars, constant: false, mat };
+            }
             for o in 0..dim {
                 for i in 0..dim {
                     mat[o * dim + i] = if o == i {
